@@ -199,6 +199,49 @@ def check_named(case):
     return sorted(tags)
 
 
+def check_large_integer_weights(case):
+    """Hundreds of rows with small integer weights (weighted totals far above 255 / 65535 when scaled): weights are
+    multiplicities whatever integer dtype carries them."""
+    import fairlearn.metrics as fm
+    from fairlearn.metrics import MetricFrame
+
+    rs = np.random.RandomState(case["seed"])
+    n = case["n"]
+    yt = rs.randint(0, 2, size=n)
+    yp = rs.randint(0, 2, size=n)
+    g = rs.randint(0, case["groups"], size=n)
+    w = rs.randint(1, 5, size=n) * case["mult"]
+    wc = {"list": [int(x) for x in w], "int64": w.astype(np.int64), "int32": w.astype(np.int32), "float": w.astype(float),
+          "series": pd.Series(w.astype(np.int64), index=np.arange(n)[::-1])}[case["w_kind"]]
+    metrics = {"sel": fm.selection_rate, "tpr": fm.true_positive_rate, "mp": fm.mean_prediction}
+    mf = MetricFrame(metrics=metrics, y_true=yt, y_pred=yp, sensitive_features=g,
+                     sample_params={k: {"sample_weight": wc} for k in metrics})
+    wf = w.astype(float)
+    for grp in range(case["groups"]):
+        m = g == grp
+        if not m.any():
+            continue
+        exp_sel = wf[m & (yp == 1)].sum() / wf[m].sum()
+        pos = m & (yt == 1)
+        exp_tpr = wf[pos & (yp == 1)].sum() / wf[pos].sum() if pos.any() else 0.0
+        got = mf.by_group.loc[grp]
+        for nm, e in (("sel", exp_sel), ("mp", exp_sel), ("tpr", exp_tpr)):
+            if np.ndim(got[nm]) != 0 or abs(float(got[nm]) - e) > 1e-12:
+                raise PropertyViolation(f"by_group[{grp}][{nm}] = {got[nm]!r} with integer weights ({case['w_kind']}, total {wf[m].sum():.0f}); weighted fraction from the rows = {e!r}")
+    d = fm.demographic_parity_difference(yt, yp, sensitive_features=g, sample_weight=wc)
+    sels = [wf[(g == k) & (yp == 1)].sum() / wf[g == k].sum() for k in range(case["groups"]) if (g == k).any()]
+    if abs(float(d) - (max(sels) - min(sels))) > 1e-12:
+        raise PropertyViolation(f"demographic_parity_difference = {d!r} with integer weights, expected {max(sels) - min(sels)!r}")
+    return ["nt", "w:" + case["w_kind"]]
+
+
+@st.composite
+def _large_weight_case(draw):
+    return {"n": draw(st.sampled_from([150, 300, 400, 1000])), "seed": draw(st.integers(0, 2**31 - 1)),
+            "groups": draw(st.integers(1, 3)), "mult": draw(st.sampled_from([1, 1, 100, 1000])),
+            "w_kind": draw(st.sampled_from(["list", "int64", "int32", "float", "series"]))}
+
+
 @st.composite
 def _case(draw, reals=False, metrics=False):
     labels = draw(st.sampled_from([["a", "b", "c", "d"], [0, 1, 2, 3], [5, 2, 9, 1]]))
@@ -250,4 +293,6 @@ SUBS = [
         floors={"nt": 0.287, "single_weighted_row_group": 0.15}),
     Sub("named_metrics", check_named, strategy=_case, quick=160, thorough=5000, shards=16,
         floors={"nt": 0.3, "single_weighted_row_group": 0.15}),
+    Sub("large_integer_weights", check_large_integer_weights, strategy=_large_weight_case, quick=48, thorough=600, shards=16,
+        shrink_quick=False),
 ]
